@@ -4,6 +4,7 @@
    correspondence check with the heap-draining generator. *)
 From GK Require Import PropCheck.
 From GK.Proofs Require Import BaseLemmas RepoProofs RepoProofs2.
+From GK.Proofs Require PredProofs RepoProofs2.
 
 (* (time, priority desc, creation time) is a strict weak order *)
 Theorem C02_key_irrefl : forall a, key_lt3 a a = false.
@@ -82,3 +83,10 @@ Theorem C02_heap_invariant : forall ops, ops_ok cfg_inmem [] ops -> forallb inme
   /\ NoDup (harr h).
 Proof. exact crun_index_ok. Qed.
 Print Assumptions C02_heap_invariant.
+
+(* executable form: the predicate the check evaluates on the real code's observations (GetNext after every operation is a
+   documented minimum, ONext answers exactly that or Exhausted) holds of the model's own observation of every step *)
+Theorem C02_model_satisfies_predicate : forall (c : cfg) (s : repo) (o : op),
+  RepoProofs.wf_repo s -> RepoProofs.op_ok s o -> p_C02 c s o (RepoProofs2.model_obs c s o) = true.
+Proof. exact PredProofs.model_obs_C02. Qed.
+Print Assumptions C02_model_satisfies_predicate.
